@@ -71,6 +71,9 @@ func replayFrameCases(t *testing.T, r *vf.Rec, check func(entry string, frame []
 		}
 		hist := replayHistory(c.History)
 		_, _, msg := check(entry, c.Frame)
+		if msg == "" && len(c.Base) > 0 {
+			_, msg = inflationCost(c.Base, c.Frame)
+		}
 		if sent != nil && msg == "" {
 			msg = sent.check()
 		}
@@ -95,7 +98,7 @@ func TestC04(t *testing.T) {
 		return
 	}
 
-	r.Rapid(t, "hostile", vf.N(14000, 5000000), func(t *rapid.T) {
+	r.Rapid(t, "hostile", vf.N(40000, 5000000), func(t *rapid.T) {
 		frame, kind := genHostileFrame(t)
 		for _, entry := range c04Entries(t, frame) {
 			accepted, sig, msg := checkC04(entry, frame)
